@@ -389,3 +389,6 @@ LEVEL_NOTE = (
     'q-values; pandas-JSON decoders are unusable under pandas 3 here and are excluded after a probe.'
 )
 TECHNIQUE = 'property-based testing (Hypothesis) vs reference model; round-trip oracle for codecs'
+
+# coverage-guided (atheris) pass of the thorough tier: (campaign, libFuzzer runs, instrumented module prefixes)
+FUZZ = [('header', 40000, ['forml.io.layout', 'cgi']), ('nego', 40000, ['forml.io.layout', 'cgi'])]
